@@ -822,7 +822,18 @@ def vc_array_writer_dyn():
                     # the (transposed) array -- here element idx of the table lands at position mem_pos(idx) because it was transposed by `order`
                     b = i._relocate(st, bufv)
                     i.oblige(st, "pre@call", f"offset_table.in_bounds[{lab}]", b.in_range(at, 8 * n_items), getattr(n, "lineno", None))
-                    i.oblige(st, "post", f"offset_table_stored_in_memory_order[{lab}]", z3.BoolVal(ws.transposed_by == tuple(order)))
+                    # semantic form (its own small path condition: only the extents): in the C-order flattening of the table transposed by
+                    # the permutation the code passed, the element of index idx sits at idx's memory position.  numpy: transpose(p) gives
+                    # shape'[k] = shape[p[k]] and element j of the result is element idx with idx[p[k]] = j[k].
+                    p = ws.transposed_by if ws.transposed_by is not None else tuple(range(len(shape)))
+                    lem = State()
+                    lem.pc = [s >= 1 for s in shape] + [z3.And(0 <= q, q < s) for q, s in zip(qs, shape)]
+                    lem.abstraction = st.abstraction
+                    cpos = z3.IntVal(0)
+                    for kk in range(len(shape)):
+                        cpos = cpos + qs[p[kk]] * T.prod([shape[p[nn]] for nn in range(kk + 1, len(shape))])
+                    i.oblige(lem, "post", f"offset_table_stored_in_memory_order[{lab}]",
+                             cpos == mem_pos(qs, shape, order))
                     i.oblige(st, "post", f"offset_table_directly_after_header[{lab}]", XB.to_z3(at) == o + D)
                     new = z3.Array(fresh_name("m"), z3.IntSort(), z3.IntSort())
                     x = z3.Int(fresh_name("x"))
@@ -896,7 +907,7 @@ def vc_array_writer_dyn():
     return obs
 
 
-T.group("array_writer_dynamic_items", vc_array_writer_dyn, [(ARR, "Array._to_buffer")], ["C03", "C05", "C01"])
+T.group("array_writer_dynamic_items", vc_array_writer_dyn, [(ARR, "Array._to_buffer")], ["C03", "C05", "C01", "C06"])
 
 
 # ------------------------------------------------------------------------------------------------ Struct.__init__: handle == view
